@@ -304,12 +304,26 @@ func ruleDiffSkip(c *Ctx, r *Report) {
 		if rs.Pos() > rec {
 			continue
 		}
-		// innermost enclosing if.
+		// innermost enclosing guard: an if, or an arm of a tagless switch (the same skip test
+		// written as `switch { case cond: return }`).
 		var is *ast.IfStmt
 		for p := pm[rs]; p != nil && p != ast.Node(iter); p = pm[p] {
 			if x, ok := p.(*ast.IfStmt); ok {
 				is = x
 				break
+			}
+			if cc, ok := p.(*ast.CaseClause); ok && len(cc.List) >= 1 {
+				if blk, ok := pm[cc].(*ast.BlockStmt); ok {
+					if sw, ok := pm[blk].(*ast.SwitchStmt); ok && sw.Tag == nil {
+						// view the arm as `if c1 || c2 … { body }`.
+						cond := cc.List[0]
+						for _, e := range cc.List[1:] {
+							cond = &ast.BinaryExpr{X: cond, Op: token.LOR, OpPos: e.Pos(), Y: e}
+						}
+						is = &ast.IfStmt{If: cc.Pos(), Cond: cond, Body: &ast.BlockStmt{Lbrace: cc.Colon, List: cc.Body, Rbrace: cc.End()}}
+						break
+					}
+				}
 			}
 		}
 		if is == nil {
